@@ -10,6 +10,7 @@ import RelicVerif.Props.C09Gcd
 import RelicVerif.Props.C09Mxp
 import RelicVerif.Props.C09Smb
 import RelicVerif.Props.C09Mod
+import RelicVerif.Props.C09Pol
 
 namespace Relic.Props.C09
 open Relic.Model.Rec
